@@ -43,6 +43,9 @@ t1, n1, own1, any1 = breaking_table(['C', 'D'])
 put('round1', t1 + f"\n\nRound 1 (54 agent changes + 4 reverse patches of the repaired defects): {any1}/{n1} detected by at least one check, {own1}/{n1} by the check of the property they were written against.")
 t2, n2, own2, any2 = breaking_table(['W2-'])
 put('round2', t2 + f"\n\nRound 2: {any2}/{n2} detected by at least one check, {own2}/{n2} by the check of the property they were written against.")
+if '<!-- GEN:round3 -->' in s:
+    t4, n4, own4, any4 = breaking_table(['W3-'])
+    put('round3', t4 + f"\n\nRound 3: {any4}/{n4} detected by at least one check, {own4}/{n4} by the check of the property they were written against.")
 t3, n3, ok3 = refactor_table()
 put('refactors', t3 + f"\n\n{ok3}/{n3} refactorings silent on all 18 checks.")
 open(D, 'w').write(s)
